@@ -317,7 +317,7 @@ func (w *World) checkArithWrapper(r *Report, op string, fn *ssa.Function) {
 		return false, AVal{}
 	}
 	ai := w.newInterp(hooks)
-	outs := ai.Exec(fn, []AVal{{Kind: avUnknown, Tag: "ctx"}, {Kind: avUnknown, Tag: "m"}, {Kind: avUnknown, Tag: "n"}}, nil, newAState())
+	outs := ai.Exec(fn, []AVal{{Kind: avUnknown, Tag: "ctx"}, {Kind: avUnknown, Tag: "m"}, {Kind: avUnknown, Tag: "n"}}, nil, w.initState())
 	pos := w.pos(fn.Pos())
 	if len(outs) == 0 {
 		r.undec("A-OPS", key, pos, "arithmetic operator function could not be followed")
